@@ -353,11 +353,19 @@ func c15Parse(cs *Case, r *rand.Rand) {
 	}
 	var keys, devs []string
 	var err error
+	given := map[string]string{}
+	for k, v := range m {
+		given[k] = v
+	}
 	if pv, st := guard(func() { keys, devs, err = cdi.ParseAnnotations(m) }); pv != nil {
 		cs.Violation("panic", nil, fmt.Sprintf("ParseAnnotations panics: %v", pv), map[string]any{"map": m, "stack": st})
 		return
 	}
 	c.Count("parse_checked", 1)
+	if !reflect.DeepEqual(m, given) {
+		cs.Violation("parse", map[string]string{"what": "argument-modified"}, fmt.Sprintf("ParseAnnotations changed the map it was given: %v, was %v", m, given), nil)
+		return
+	}
 	if !allOK {
 		if err == nil || keys != nil || devs != nil {
 			cs.Violation("parse-error-contract", nil, fmt.Sprintf("ParseAnnotations of a map with an unqualified device returned keys=%v devices=%v err=%v", keys, devs, err), map[string]any{"map": m})
